@@ -50,8 +50,9 @@ impl ReferenceIdRequest {
         writer.write_all(&self.offset.to_be_bytes())?;
         writer.write_all(&[0; 2])?;
 
-        let words = payload_len / 4;
-        assert_eq!(payload_len % 4, 0);
+        // a decoded request may carry a payload length that is not a multiple of 4;
+        // like every other field it is zero-padded up to the next 4-byte boundary
+        let words = payload_len.div_ceil(4);
 
         for _ in 1..words {
             writer.write_all(&[0; 4])?;
